@@ -185,13 +185,17 @@ def daily_family(fam, spec, keys, hist):
             st0 = merge(nest(path, alt), extra)
             for variant in ("lower", "UPPER", "padded"):
                 for ename, fn in entries.items():
-                    for dm in ("absent", False, True):
+                    for dm in ("absent", False, True, "silent-only", "silent-and-false"):
                         st = keyvar(st0, variant)
-                        if dm is not False and dm != "absent":
+                        if dm is True:
                             st.update({"developer_mode": True, "silent_developer_mode": True} if variant == "lower" else
                                       {"DEVELOPER_MODE": True, "SILENT_DEVELOPER_MODE": True})
                         elif dm is False:
                             st["developer_mode"] = False
+                        elif dm == "silent-only":                     # the flag that only silences the notice is not an unlock
+                            st["silent_developer_mode"] = True
+                        elif dm == "silent-and-false":
+                            st.update(developer_mode=False, silent_developer_mode=True)
                         s, err = try_build(fn, st)
                         n_ctor += 1
                         keys.add("%s|%s|%r|%s|%s|%s" % (fam, path, alt, variant, ename, dm))
